@@ -558,8 +558,11 @@ func (c Component) Hash() uint64 {
 
 // HashInto hashes the current component into the hasher
 func (c Component) HashInto(h hash.Hash) {
-	tbuf := []byte{0, 0, 0, 0, 0, 0, 0, 0}
+	// type and length first: without the length the bytes hashed for a name are
+	// ambiguous (one component may hold what looks like the following ones)
+	tbuf := []byte{0, 0, 0, 0, 0, 0, 0, 0, 0, 0, 0, 0, 0, 0, 0, 0}
 	binary.BigEndian.PutUint64(tbuf, uint64(c.Typ))
+	binary.BigEndian.PutUint64(tbuf[8:], uint64(len(c.Val)))
 	h.Write(tbuf)
 	h.Write(c.Val)
 }
